@@ -33,9 +33,14 @@ def tup(x):
 def catalog(kind, size):
     """Deterministic small catalog of specs for an object kind; size in ('s', 'm')."""
     if kind == 'dfa':
-        out = [('dfa', s) for _, s in spaces.dfas(1, 1)] + [('dfa', s) for _, s in spaces.dfas(2, 1)]
+        # chains first (the hash-seed battery takes the first 30 instances): a refinement that stops a round early shows here
+        out = [('dfa', ('dfa', 5, 1, (1, 2, 3, 4, 4), 0, fb)) for fb in (24, 16, 8, 20)] + [('dfa', ('dfa', 6, 1, (1, 2, 3, 4, 5, 5), 0, fb)) for fb in (48, 32)]
+        out += [('dfa', ('dfa', 5, 2, (1, 0, 2, 0, 3, 0, 4, 0, 4, 4), 0, 16)), ('dfa', ('dfa', 4, 2, (1, 1, 2, 0, 3, 1, 3, 3), 0, 8))]
+        out += [('dfa', s) for _, s in spaces.dfas(1, 1)] + [('dfa', s) for _, s in spaces.dfas(2, 1)]
         out += [('dfa', s) for i, s in spaces.dfas(2, 2) if size == 'm' or i % 4 == 1]
         out += [('dfa', s) for i, s in spaces.dfas(3, 2) if i % (97 if size == 'm' else 389) == 7]
+        out += [('dfa', s) for i, s in spaces.dfas(4, 1) if i % (211 if size == 'm' else 997) == 3]
+        out += [('dfa', s) for i, s in spaces.dfas(5, 1) if i % (3001 if size == 'm' else 9001) == 5]
         return out
     if kind == 'nfa':
         out = [('nfa', s, 's', '') for i, s in spaces.nfas(2, 1, 3) if i % (3 if size == 'm' else 9) == 1]
@@ -100,7 +105,9 @@ def instances(o, size, pair_cap):
     """Argument tuples (items) for an operation."""
     objkinds = [k for k in o['args'] if O.base_kind(k) in O.OBJ_KINDS]
     cats = [catalog_for(k, size) for k in objkinds]
-    if len(cats) == 1:
+    if len(cats) == 0:
+        yield ()
+    elif len(cats) == 1:
         for it in cats[0]:
             yield (it,)
     else:
@@ -145,7 +152,14 @@ def check_op(acc, opname, size, pair_cap, shard, nshard):
                 before = [O.snap(O.base_kind(k), x) for k, x in zip(objkinds, objs)]
                 GambaTools.enable_logging = logging
                 try:
-                    ok, r = core.lib_call(acc, opname, dict(inst, logging=logging), run_op, o, objs, extras, repro=rp)
+                    if opname.endswith('[bad]'):
+                        try:                      # an ill-formed text: raising is the expected behaviour
+                            r = run_op(o, objs, extras)
+                            ok = True
+                        except Exception:
+                            ok, r = False, None
+                    else:
+                        ok, r = core.lib_call(acc, opname, dict(inst, logging=logging), run_op, o, objs, extras, repro=rp)
                 finally:
                     GambaTools.enable_logging = False
                 acc.transitions += 1
@@ -305,7 +319,7 @@ def history_check(acc, opnames, depth, pool_items=None, part=0, nparts=1):
         fresh = fresh_cache[key]
         if failed is not None:
             if fresh[0] == 'raise':
-                return False        # fails in the fresh state as well: not a history effect (judged by the home property)
+                return 'expand'     # fails in the fresh state as well: not a history effect - but the failed call is part of the history
             acc.viol(name, 'raises after earlier calls but not in a fresh state', inst, repro=rp, error=core.describe_exc(failed))
             return False
         acc.evals += 1
